@@ -123,15 +123,18 @@ PROPS = {
     'C02': dict(
         title='extends/isOrExtends equal reachability over current bases, after any rebasing',
         contracts=['C02_spec'], falsifier='C02', modes=['py', 'c'], level='other',
-        level_text='The dependents bookkeeping is verified from the real bodies: Specification.dependents/subscribe/unsubscribe keep '
-                   'exact positive counts, and Specification.__setBases (the __bases__ setter) leaves the specification subscribed to '
-                   'exactly its new bases with multiplicity (cnt(X, self) == occurrences of X in the new bases, for every X), touches '
-                   'nobody else\'s bookkeeping and notifies itself last -- the invariant that makes every later change reach all '
-                   'dependents. That changed() then recomputes __sro__/_implied of every descendant to graph reachability is checked '
-                   'bounded on random mixed graphs with re-basing histories (all pairs against independent reachability).',
-        level_note='changed()/_calculate_sro are bounded only; weak dependents assumed alive during a call; equal-named distinct '
-                   'interfaces are one key by design.',
-        explanation='subscription invariant of __bases__ assignment proved; recomputation by changed() bounded',
+        level_text="The dependents bookkeeping is verified from the real bodies: Specification.dependents/subscribe/unsubscribe keep "
+                   "exact positive counts; Specification.__setBases (the __bases__ setter) leaves the specification subscribed to "
+                   "exactly its new bases with multiplicity, touches nobody else's bookkeeping and notifies itself last; "
+                   "Specification.changed recomputes __sro__ from the current bases, sets __iro__ to its interfaces and _implied to "
+                   "exactly its members, drops the attribute memo, notifies every dependent and leaves everything of lower rank "
+                   "untouched. The global consequence (after any re-basing history every descendant answers by graph reachability) "
+                   "rests on these contracts plus an induction over the acyclic dependents graph that is not machine-checked; it is "
+                   "checked bounded on random mixed graphs with re-basing histories.",
+        level_note="_calculate_sro is an assumed contract (C03 covers ro.py); the induction from the local contracts to the global "
+                   "statement is a meta-argument (DESIGN 4.2); weak dependents assumed alive during a call; equal-named distinct "
+                   "interfaces are one key by design.",
+        explanation='local repair-by-notification contracts proved (subscription invariant, recomputation, cascade); global statement bounded',
     ),
     'C13': dict(
         title='Specifications pickle by reference and unpickle to the equivalent live object',
